@@ -356,6 +356,7 @@ fn inner_layout(s: &mut Src, name: &str, bits: u32, debug: bool) -> Layout {
                 arg_order: 0,
                 opt_path: 0,
                 huge: None,
+                zero_pad: false,
             });
         }
     }
@@ -646,8 +647,9 @@ pub fn build_layout_on(p: &Profile, s: &mut Src, bits: u32) -> Layout {
         // spelling variants: order of the attribute arguments, field-name prefixes
         let arg_order = if s.chance(1, 3) { s.below(6) as u8 } else { 0 };
         let opt_path = if s.chance(1, 4) { s.range(1, 2) as u8 } else { 0 };
-        let prefix = if s.chance(1, 4) { s.pick(&["r", "rr", "rate", "w", "x_", "ready", "set", "with", "value"]) } else { "f" };
-        l.fields.push(Field { name: format!("{}{}", prefix, k), kw_bit, list: list_syntax, ranges, array, ty, access, arg_order, opt_path, huge: None });
+        let zero_pad = s.chance(1, 10);
+        let prefix = if s.chance(1, 4) { s.pick(&["r", "rr", "rate", "w", "x_", "ready", "set", "with", "value", "_", "_reserved"]) } else { "f" };
+        l.fields.push(Field { name: format!("{}{}", prefix, k), kw_bit, list: list_syntax, ranges, array, ty, access, arg_order, opt_path, huge: None, zero_pad });
     }
     if l.fields.is_empty() {
         // always at least one field: a single bit at 0
@@ -665,6 +667,7 @@ pub fn build_layout_on(p: &Profile, s: &mut Src, bits: u32) -> Layout {
             arg_order: 0,
                 opt_path: 0,
                 huge: None,
+                zero_pad: false,
         });
     }
     if p.ensure_writable && !l.fields.iter().any(|f| f.access.writable()) && p.access != AccessMode::AllR {
@@ -700,7 +703,7 @@ pub fn build_layout_on(p: &Profile, s: &mut Src, bits: u32) -> Layout {
             2 => s.u128() & m & !rules::writable_mask(&l),
             _ => s.u128() & m,
         };
-        l.default = Some(DefaultDecl { value: v, named_const: l.base_native() && s.chance(1, 4), radix: s.pick(&[10u8, 16, 16, 2, 8, 17, 3]) });
+        l.default = Some(DefaultDecl { value: v, named_const: l.base_native() && s.chance(1, 4), radix: s.pick(&[10u8, 16, 16, 2, 8, 17, 3]), const_name: None });
         l.default_colon = s.chance(1, 4);
     }
     l.debug_first = l.debug && s.chance(1, 2);
